@@ -69,7 +69,35 @@ enum Inner {
 pub struct File {
     inner: Inner,
     path: PathBuf,
+    /// what fstat reports: the size of the file on the disk at open time - which is not necessarily
+    /// what the reads will deliver (a file that shrinks, a planned short read)
+    stat_len: u64,
+    /// reads that returned 0 bytes at the end of the file (logical clock for read loops)
+    eof_reads: u32,
 }
+
+/// The part of `std::fs::Metadata` that can be answered for a simulated file.
+#[derive(Clone, Debug)]
+pub struct Metadata {
+    len: u64,
+    dir: bool,
+}
+
+impl Metadata {
+    #[allow(clippy::len_without_is_empty)]
+    pub fn len(&self) -> u64 {
+        self.len
+    }
+    pub fn is_dir(&self) -> bool {
+        self.dir
+    }
+    pub fn is_file(&self) -> bool {
+        !self.dir
+    }
+}
+
+/// A loop that keeps reading at the end of a file never ends: more than this many empty reads of one file is a verdict
+const EOF_READ_BUDGET: u32 = 100_000;
 
 impl fmt::Debug for File {
     fn fmt(&self, f: &mut fmt::Formatter) -> fmt::Result {
@@ -81,17 +109,22 @@ impl File {
     pub fn open<P: AsRef<Path>>(path: P) -> io::Result<Self> {
         let path = path.as_ref();
         if disk::active() {
+            let stat_len = disk::with(|d| d.files.get(&disk::normalize(path)).map(|b| b.len() as u64)).unwrap().unwrap_or(0);
             let data = disk::with(|d| d.read(path))
                 .unwrap()
                 .map_err(|e| wrap(e, EK::OpenFile, path))?;
             Ok(File {
                 inner: Inner::SimRead(io::Cursor::new(data)),
                 path: path.to_path_buf(),
+                stat_len,
+                eof_reads: 0,
             })
         } else {
             Ok(File {
                 inner: Inner::Real(real_fs_err::File::open(path)?),
                 path: path.to_path_buf(),
+                stat_len: 0,
+                eof_reads: 0,
             })
         }
     }
@@ -105,11 +138,15 @@ impl File {
             Ok(File {
                 inner: Inner::SimWrite { norm, pos: 0 },
                 path: path.to_path_buf(),
+                stat_len: 0,
+                eof_reads: 0,
             })
         } else {
             Ok(File {
                 inner: Inner::Real(real_fs_err::File::create(path)?),
                 path: path.to_path_buf(),
+                stat_len: 0,
+                eof_reads: 0,
             })
         }
     }
@@ -117,13 +154,30 @@ impl File {
     pub fn path(&self) -> &Path {
         &self.path
     }
+
+    pub fn metadata(&self) -> io::Result<Metadata> {
+        match &self.inner {
+            Inner::Real(f) => f.metadata().map(|m| Metadata { len: m.len(), dir: m.is_dir() }),
+            Inner::SimRead(_) => Ok(Metadata { len: self.stat_len, dir: false }),
+            Inner::SimWrite { norm, .. } => Ok(Metadata { len: disk::with(|d| d.files.get(norm).map(|b| b.len() as u64)).unwrap().unwrap_or(0), dir: false }),
+        }
+    }
 }
 
 impl Read for File {
     fn read(&mut self, buf: &mut [u8]) -> io::Result<usize> {
         match &mut self.inner {
             Inner::Real(f) => f.read(buf),
-            Inner::SimRead(c) => c.read(buf),
+            Inner::SimRead(c) => {
+                let n = c.read(buf)?;
+                if n == 0 && !buf.is_empty() {
+                    self.eof_reads += 1;
+                    if self.eof_reads > EOF_READ_BUDGET {
+                        panic!("{}: {} reads at the end of {} returned nothing and the caller keeps reading", disk::READ_BUDGET_MARKER, self.eof_reads, self.path.display());
+                    }
+                }
+                Ok(n)
+            }
             Inner::SimWrite { .. } => Err(io::Error::from_raw_os_error(9)),
         }
     }
@@ -217,6 +271,8 @@ impl OpenOptions {
                 Ok(File {
                     inner: Inner::SimWrite { norm, pos: 0 },
                     path: path.to_path_buf(),
+                    stat_len: 0,
+                    eof_reads: 0,
                 })
             } else {
                 File::open(path)
@@ -232,6 +288,8 @@ impl OpenOptions {
             Ok(File {
                 inner: Inner::Real(o.open(path)?),
                 path: path.to_path_buf(),
+                stat_len: 0,
+                eof_reads: 0,
             })
         }
     }
@@ -339,5 +397,24 @@ pub fn canonicalize<P: AsRef<Path>>(path: P) -> io::Result<PathBuf> {
         }
     } else {
         real_fs_err::canonicalize(path)
+    }
+}
+
+pub fn metadata<P: AsRef<Path>>(path: P) -> io::Result<Metadata> {
+    let path = path.as_ref();
+    if disk::active() {
+        let p = disk::normalize(path);
+        disk::with(|d| {
+            if let Some(b) = d.files.get(&p) {
+                Ok(Metadata { len: b.len() as u64, dir: false })
+            } else if d.dirs.contains(&p) {
+                Ok(Metadata { len: 4096, dir: true })
+            } else {
+                Err(wrap(io::Error::from_raw_os_error(2), EK::OpenFile, path))
+            }
+        })
+        .unwrap()
+    } else {
+        real_fs_err::metadata(path).map(|m| Metadata { len: m.len(), dir: m.is_dir() })
     }
 }
